@@ -1883,7 +1883,8 @@ def install(ip):
     E["core::num::<impl usize>::checked_sub"] = s_checked("sub")
     E["core::num::<impl usize>::checked_add"] = s_checked("add")
     E["core::num::<impl usize>::checked_mul"] = s_checked("mul")
-    E["std::convert::num::<impl std::convert::From<bool> for u8>::from"] = s_int_from
+    for b in ("u8", "u16", "u32", "u64", "u128", "usize", "i8", "i16", "i32", "i64", "i128", "isize"):
+        E["std::convert::num::<impl std::convert::From<bool> for %s>::from" % b] = s_int_from
     for a, b in (("u8", "u16"), ("u8", "u32"), ("u8", "u64"), ("u8", "usize"), ("u16", "u32"), ("u16", "u64"),
                  ("u32", "u64"), ("u16", "usize"), ("u32", "usize")):
         E["std::convert::num::<impl std::convert::From<%s> for %s>::from" % (a, b)] = s_int_from
